@@ -30,7 +30,7 @@ class Bar:
         # Pad bar
         if self.sequence.get_sequence_duration_relation() < self.time_signature_numerator * PPQN / (
                 self.time_signature_denominator / 4):
-            self.sequence.pad(self.time_signature_numerator * PPQN / (self.time_signature_denominator / 4))
+            self.sequence.pad(int(self.time_signature_numerator * PPQN / (self.time_signature_denominator / 4)))
 
         # Assert time signature is consistent
         time_signatures = [msg for msg in self.sequence.messages_rel() if
